@@ -162,8 +162,13 @@ func (g *control) stmt(depth int, inLoop, first, last bool) []psref.Tok {
 			return []psref.Tok{psref.TL(name), p, psref.TX("bind"), psref.TX("def")}
 		}
 		return []psref.Tok{psref.TL(name), p, psref.TX("def")}
-	case k == 22 || k == 23: // use a name
+	case k == 22 || k == 23 || k == 28 || k == 29: // use a name
 		name := []string{"p", "q", "x", "y"}[g.draw(4, "usename")]
+		if len(g.names) > 0 && g.draw(3, "defined") > 0 {
+			// prefer a name that was defined earlier in the text (calls,
+			// rebinding between definition and use)
+			name = g.names[g.draw(len(g.names), "definedname")]
+		}
 		for _, n := range g.names {
 			if n == name {
 				g.feat["rebind-or-call"] = true
